@@ -415,7 +415,7 @@ int main(int argc, char *argv[])
     int ch = 0;
     char str[17];
     int ptr = 0;
-    uint32_t i;
+    uint64_t i; // 64 bit so the loop ends when high_address is 0xffffffff
 
     fprintf(asm_context.list, "data sections:");
 
@@ -429,7 +429,7 @@ int main(int argc, char *argv[])
           {
             output_hex_text(asm_context.list, str, ptr);
           }
-          fprintf(asm_context.list, "\n%04x:", i/asm_context.bytes_per_address);
+          fprintf(asm_context.list, "\n%04x:", (uint32_t)(i / asm_context.bytes_per_address));
           ptr = 0;
         }
 
